@@ -2,7 +2,8 @@
    The SVD is an oracle: every theorem holds for EVERY function [svd] whose answer on the covariance it is
    asked about meets [svd_at] (orthogonal factors, ordered non-negative singular values, reconstruction). *)
 From Coq Require Import Reals List Permutation.
-From Evo Require Import Num Linalg LinalgR Umeyama UmeyamaProofs.
+From Evo Require Import Num Linalg LinalgR Umeyama UmeyamaProofs NpDsl UmeyamaTie.
+From EvoGen Require Import UmeyamaGen.
 Import ListNotations.
 Local Open Scope R_scope.
 
@@ -64,3 +65,20 @@ Proof. exact (conj ex_svd_ok ex_result_exists). Qed.
 Print Assumptions C03_hypotheses_satisfiable.
 (* NOT proved (covered by the correspondence run only): equality of the returned PARAMETERS with the generating ones, and that
    the returned triple of moved inputs IS the image of the original one - both need uniqueness of the optimum (d2 > d3 or det > 0). *)
+
+(* ---- translator tie: umeyama_alignment_gen is re-translated from evo/core/geometry.py on every run ---- *)
+(* the translated source IS the model (over R, for every SVD oracle with ordered singular values at the queried matrix) *)
+Theorem C03_translated_source_is_the_model : forall (svd : M3R -> M3R * V3R * M3R) (eps : R) ws (x y : list V3R),
+  (let '(u, d, v) := svd (cov_xy x y) in vx d >= vy d /\ vy d >= vz d) ->
+  umeyama_alignment_gen svd eps x y ws = umeyama svd eps ws x y.
+Proof. exact umeyama_gen_is_model. Qed.
+Print Assumptions C03_translated_source_is_the_model.
+(* hence the main statement holds of the translated source itself *)
+Theorem C03_translated_source_proper_rotation_positive_scale_optimal :
+  forall (svd : M3R -> M3R * V3R * M3R) (eps : R) (ws : bool) (x y : list V3R) r t c, 0 <= eps ->
+  svd_at svd (cov_xy x y) -> umeyama_alignment_gen svd eps x y ws = Some (r, t, c) ->
+  length x = length y /\ SO3 r /\ 0 < c /\ (ws = false -> c = 1) /\
+  (ws = false -> forall R' t', SO3 R' -> resid c r t x y <= resid 1 R' t' x y) /\
+  (ws = true -> forall c' R' t', SO3 R' -> 0 < c' -> resid c r t x y <= resid c' R' t' x y).
+Proof. exact umeyama_gen_spec. Qed.
+Print Assumptions C03_translated_source_proper_rotation_positive_scale_optimal.
